@@ -142,10 +142,21 @@ func StructShape(t *rapid.T) Shape {
 	}
 
 	n := rapid.IntRange(0, 8).Draw(t, "nfields")
+	many := idForm == "ok" && rapid.IntRange(0, 1499).Draw(t, "manyfields") == 0
+
+	if many {
+		// more fields than a machine word has bits, all of them proper
+		// attributes and relationships (so that the struct has a chance to
+		// be accepted)
+		n = rapid.IntRange(65, 68).Draw(t, "nfields-many")
+	}
 	for i := 0; i < n; i++ {
 		f := FieldShape{Name: fmt.Sprintf("F%d", i)}
 
 		mode := rapid.IntRange(0, 9).Draw(t, "fieldmode")
+		if many {
+			mode = mode % 6
+		}
 		switch {
 		case mode <= 3: // a proper attribute
 			k := rapid.SampledFrom(Kinds).Draw(t, "kind")
@@ -170,10 +181,10 @@ func StructShape(t *rapid.T) Shape {
 			f.API = rapid.SampledFrom([]string{"attr", "attr", "rel", "rel,", "rel,t", "rel,t,inv", "rel,,inv", "rel,a,b,c", "foo", "", "attr,x", "relation,t"}).Draw(t, "apitag")
 		}
 
-		f.HasJSON = rapid.IntRange(0, 9).Draw(t, "hasjson") > 0
+		f.HasJSON = many || rapid.IntRange(0, 9).Draw(t, "hasjson") > 0
 		f.JSON = fmt.Sprintf("f%d", i)
 
-		if rapid.IntRange(0, 3).Draw(t, "jsonodd") == 0 {
+		if !many && rapid.IntRange(0, 3).Draw(t, "jsonodd") == 0 {
 			f.JSON = rapid.SampledFrom(jsonPool).Draw(t, "jsonname")
 		}
 
